@@ -39,16 +39,16 @@ import (
 )
 
 type algStats struct {
-	Ops, Ceremonies, Batches, SignaturesChecked, SharesChecked, SubsetsChecked int
-	C07Schedules, C07Races, C11Scenarios                                       int
-	CraftedBatches, PartialsChecked, FaultySignerBatches, AwayProposerBatches  int
-	C11Refed                                                                   int
-	C07Exhaustive                                                              string
-	Configs                                                                    []string
-	OutcomeHist                                                                map[string]int
-	Monitors                                                                   []string
-	Samples                                                                    []string
-	Notes                                                                      []string
+	Ops, Ceremonies, Batches, SignaturesChecked, SharesChecked, SubsetsChecked                   int
+	C07Schedules, C07Races, C11Scenarios                                                         int
+	CraftedBatches, PartialsChecked, FaultySignerBatches, AwayProposerBatches, SlowReaderBatches int
+	C11Refed                                                                                     int
+	C07Exhaustive                                                                                string
+	Configs                                                                                      []string
+	OutcomeHist                                                                                  map[string]int
+	Monitors                                                                                     []string
+	Samples                                                                                      []string
+	Notes                                                                                        []string
 }
 
 func scalarHex(s kyber.Scalar) string {
@@ -672,6 +672,63 @@ func runAlgDiff(outDir string, seed int64, tier string) {
 							c.pollAllNodes()
 							c.pollAllNodes()
 							a.checkSignatures(c, round, ids[0], secret, gk, []proposedMsg{{"away.bin", payload}}, fmt.Sprintf("%s batch whose proposer %d was away, after its return", tag, away))
+						}
+					}
+				}
+				// C01/C03: a slow reader. One node answers a batch and then stops reading the board; the others finish the batch and a
+				// second one is proposed that names a file like the first with another payload. Only then does the slow node read on:
+				// it reconstructs the FIRST batch and broadcasts that, and the others receive it while they are signing the SECOND.
+				// At that moment, and after the second batch is complete, every stored value is a signature of what ITS batch proposed.
+				{
+					slow := a.rng.Intn(cf.n)
+					c.pollAllNodes()
+					from := len(c.boardMessages())
+					pay1, pay2 := []byte("first batch: the payload under this name"), []byte("second batch: ANOTHER payload under the same name")
+					pollOthers := func() {
+						for i, nd := range c.nodes {
+							if i != slow {
+								c.pollOnce(nd, 0)
+							}
+						}
+					}
+					if err := c.proposeData(c.nodes[a.rng.Intn(cf.n)], round, map[string][]byte{"same name.bin": pay1}); err == nil {
+						c.pollAllNodes()
+						if ids := c.newBatches(from); len(ids) == 1 {
+							for _, i := range a.rng.Perm(cf.n) {
+								c.answerBatch(i, ids[0])
+							}
+							pollOthers()
+							pollOthers()
+							pollOthers()
+							from2 := len(c.boardMessages())
+							other := (slow + 1 + a.rng.Intn(cf.n-1)) % cf.n
+							if err := c.proposeData(c.nodes[other], round, map[string][]byte{"same name.bin": pay2}); err == nil {
+								pollOthers()
+								ids2 := c.newBatches(from2)
+								// the slow node catches up: reconstructs the first batch, broadcasts, sees the second proposal
+								c.pollOnce(c.nodes[slow], 0)
+								c.pollOnce(c.nodes[slow], 0)
+								pollOthers()
+								c.pollAllNodes()
+								if len(ids2) == 1 {
+									a.st.SlowReaderBatches++
+									tg := fmt.Sprintf("%s slow reader %d:", tag, slow)
+									a.safetyOnly = true
+									a.checkSignatures(c, round, ids2[0], secret, gk, []proposedMsg{{"same name.bin", pay2}}, tg+" second batch while it is being signed, after the slow node's broadcast for the first arrived")
+									a.checkSignatures(c, round, ids[0], secret, gk, []proposedMsg{{"same name.bin", pay1}}, tg+" first batch, while the second is being signed")
+									a.safetyOnly = false
+									for _, i := range a.rng.Perm(cf.n) {
+										c.answerBatch(i, ids2[0])
+										c.pollAllNodes()
+									}
+									c.pollAllNodes()
+									c.pollAllNodes()
+									a.checkSignatures(c, round, ids2[0], secret, gk, []proposedMsg{{"same name.bin", pay2}}, tg+" second batch, complete")
+									a.checkSignatures(c, round, ids[0], secret, gk, []proposedMsg{{"same name.bin", pay1}}, tg+" first batch, after the second")
+								} else {
+									a.st.Notes = append(a.st.Notes, fmt.Sprintf("%s slow reader: %d second batches", tag, len(ids2)))
+								}
+							}
 						}
 					}
 				}
